@@ -540,6 +540,20 @@ def _spg_state_goals(ex, pre, x, r, hv, b, tr, z, xNew, d, q, qHistory, nhist):
     ex.goal(pre + 'history_length_kept', Holds(len(qHistory) == nhist))
 
 
+def _between_zero_and(p, v):
+    return z3.And(p >= z3.If(v <= 0, v, 0), p <= z3.If(v >= 0, v, 0))
+
+
+def prove_product_lemma(h):
+    a, v = z3.Real('lem_a'), z3.Real('lem_v')
+
+    def concrete(vals):
+        aa, vv = float(vals['a']), float(vals['v'])
+        return 0 <= aa <= 1, Holds(min(0.0, vv) <= aa * vv <= max(0.0, vv)), {}
+    h.prove('lemma.scaled_step_between_zero_and_step', [a >= 0, a <= 1], Holds(_between_zero_and(a * v, v)), inputs=dict(a=a, v=v), concrete=concrete, cap=20,
+            order=('nlsat', 'core'))
+
+
 def make_spg_body_harness(pattern, nonmonotone, hist):
     n = len(pattern)
 
@@ -574,10 +588,19 @@ def make_spg_body_harness(pattern, nonmonotone, hist):
         ex.goal('trial_point_in_box', box_atom(x + z0 + s, b))
         ex.goal('trial_point_inside_trust_region', Le(px.unwrap(NP.dot(z0 + s, z0 + s)), px.unwrap(tr * tr), scale=px.unwrap(tr * tr)))
         ex.goal('history_max_not_below_current_value', Le(px.unwrap(q0), px.unwrap(qMax)))
-        # cut: alpha in [0,1] is used by the convexity goals below
+        # cuts: alpha in [0,1], trial point in the box and in the trust region are proved above on this path and then used as
+        # lemmas for the convexity goals below
         if ex.symbolic:
             ex.assume(alpha >= 0)
             ex.assume(alpha <= 1)
+            assume_in_box(ex, x + z0 + s, b)
+            ex.assume(NP.dot(z0 + s, z0 + s) <= tr * tr)
+            # instances of the lemma `0 <= a <= 1  =>  min(0,v) <= a v <= max(0,v)` (proved for all reals by the solver in this
+            # obligation, query lemma.scaled_step_between_zero_and_step): make the box goal of the new iterate linear
+            for k in range(n):
+                av = alpha * s[k]
+                if is_sym(av):
+                    ex.assume(SymBool(_between_zero_and(px._z(av), px._z(s[k]))))
         zn = loc['z']
         _spg_state_goals(ex, 'post.', x, r, hv, b, tr, zn, loc['xNew'], loc['d'], loc['q'], loc['qHistory'], len(hq))
         ex.goal('post.step_is_convex_combination', Eq(px.unwrap(zn), px.unwrap(z0 + alpha * s)))
@@ -630,11 +653,16 @@ def _o4_note(h):
     h.assume_note('stub: scipy.optimize.brentq by contract (see O2; its sign precondition is a goal at both call sites of the body)',
                   'stub: float(q) is the identity on reals',
                   'IEEE: inside the two line-search functions x/0 and sqrt(negative) produce inf/nan (path forks) as in the real arithmetic; elsewhere definedness is a goal',
-                  'cut: step_length_in_unit_interval is proved first on every path and then used for the post-state goals of that path',
+                  'cut: step_length_in_unit_interval, trial_point_in_box and trial_point_inside_trust_region are proved first on every path and then used as lemmas for the post-state goals of that path',
+                  'cut: ground instances (a = alpha, v = s_k) of the solver-proved lemma 0 <= a <= 1 => min(0,v) <= a v <= max(0,v) are added to the path before post.iterate_in_box is decided',
                   'inductive step: pre-state is any state satisfying the invariant, reachable or not; the cauchy step entering the prologue satisfies the O3 contract (x + s in box, |s| <= trSize)')
     h.outside('decrease of the model along SPG iterations and quality of the spectral step (convergence); max_spg_iters = 0 (the function then reads an unbound loop variable)')
 
 
+SPG_ORDER = {None: ('nlsat', 'core')}
+for _g in ('trial_point_in_box', 'post.iterate_in_box', 'return.only_below_tolerance', 'post.spectral_step_length_within_limits', 'post.not_returned_means_not_converged',
+           'history_max_not_below_current_value', 'post.history_ends_with_current_model_value'):
+    SPG_ORDER[_g] = ('core', 'nlsat')
 SPG_GOALS_BODY = ['step_length_in_unit_interval', 'post.iterate_in_box', 'post.step_inside_trust_region', 'post.model_gradient_bookkeeping', 'post.model_value_bookkeeping',
                   'return.only_below_tolerance', 'cap_exit.returns_current_step', 'brentq_sign_precondition']
 
@@ -644,7 +672,8 @@ def _reg_spg(nonmonotone, hist, pattern, tiers):
 
     def ob(h):
         _o4_note(h)
-        px.run_px(h, 'body', make_spg_body_harness(pattern, nonmonotone, hist), cap=40, order=('nlsat', 'core'), div_mode='goal', sqrt_mode='goal', feas_ms=60,
+        prove_product_lemma(h)
+        px.run_px(h, 'body', make_spg_body_harness(pattern, nonmonotone, hist), cap=40, order=SPG_ORDER, div_mode='goal', sqrt_mode='goal', feas_ms=60,
                   expect_goals=SPG_GOALS_BODY)
     ob.__doc__ = ('one body of the SPG loop of solve_spg_subproblem (%s line search, history %s, n=%d, bound kinds %s) from an arbitrary loop-head state satisfying the invariant: '
                   'alpha in [0,1], x+z stays in the box and |z| <= trSize, bookkeeping identities for d and q, honest returns' % ('non-monotone' if nonmonotone else 'exact', hist, n, '/'.join(pattern)))
